@@ -360,7 +360,7 @@ def coq_op(op, info):
         return f'(OInsert {common.coq_z(op["i"])})'
     if k == 'append':
         return 'OAppend'
-    if k == 'extend':
+    if k in ('extend', 'iadd'):
         return 'OExtend'
     if k == 'pop':
         return f'(OPop {common.coq_z(op["i"])})'
@@ -470,8 +470,15 @@ def call(root, op, want_corr=True):
             vw = getattr(parent, name)
             rawl = list(getattr(parent, op['raw']))
             T = vw._raw_type
+            conv = {}
+            for it in rawl:
+                if isinstance(it, T):
+                    try:
+                        conv[id(it)] = vw._from_raw_type(it)
+                    except Exception:
+                        pass
             vref = (rawl, [k for k, it in enumerate(rawl) if isinstance(it, T)], T,
-                    {id(it): node_text(it) for it in rawl})
+                    {id(it): node_text(it) for it in rawl}, conv)
         except Exception:
             vref = None
     pre_cur = None
@@ -531,6 +538,16 @@ def call(root, op, want_corr=True):
                 w.append(vals[0])
             elif k == 'extend':
                 w.extend(vals)
+            elif k == 'iadd':
+                # owner.attr += values
+                setattr(parent, name, w.__iadd__(vals))
+            elif k == 'vread':
+                v0 = vals[0]
+                try:
+                    ix = w.index(v0)
+                except ValueError:
+                    ix = None
+                result = [w.count(v0), v0 in w, ix]
             elif k == 'pop':
                 result = w.pop(op['i']) if op['i'] is not None else w.pop()
             elif k == 'clear':
@@ -623,7 +640,7 @@ def call(root, op, want_corr=True):
             _frame_monitor(findings, op, parent, name, raw_slot, T0, T1, texts0, pf0, pl0, ch0, values, result)
             if vref is not None:
                 try:
-                    _view_monitor(findings, op, parent, name, vref)
+                    _view_monitor(findings, op, parent, name, vref, result)
                 except Exception as e:
                     findings.append((SIG_VIEW, f'{op["op"]} on {type(parent).__name__}.{name}: the raw list is unreadable afterwards ({type(e).__name__})'))
     return rec
@@ -639,10 +656,10 @@ def _decode(v, vtype):
     return v
 
 
-def _view_monitor(findings, op, parent, name, vref):
+def _view_monitor(findings, op, parent, name, vref, result=None):
     """a value-level call changes exactly the element(s) it addresses: reference = the raw list before the
     call and the positions of the view's type in it (recomputed from the list, not from the view's cache)"""
-    ref, pos, T, texts = vref
+    ref, pos, T, texts = vref[:4]
     cur = list(getattr(parent, op['raw']))
     where = f'{op["op"]} on {type(parent).__name__}.{name}'
     k = op['op']
@@ -659,9 +676,14 @@ def _view_monitor(findings, op, parent, name, vref):
         targets = [pos[i] for i in range(n)[slice(*op['s'])]]
     elif k == 'clear':
         targets = list(pos)
+    elif k in ('remove', 'discard') and op.get('plain'):
+        w = getattr(parent, name)
+        v0 = _decode(op['values'][0], op.get('vtype'))
+        match = [j for j in pos if id(ref[j]) in vref[4] and vref[4][id(ref[j])] == v0]
+        targets = match[:1] if k == 'remove' else match
     elif k in ('remove', 'discard', 'map_del', 'map_pop', 'map_set'):
         targets = list(pos)     # some element(s) of the view's type
-    elif k in ('insert', 'append', 'extend', 'touch'):
+    elif k in ('insert', 'append', 'extend', 'iadd', 'touch', 'vread'):
         targets = []
     if targets is None:
         return
@@ -675,7 +697,14 @@ def _view_monitor(findings, op, parent, name, vref):
         if id(it) in texts and id(it) in set(keep) and node_text(it) != texts[id(it)]:
             findings.append((SIG_VIEW, f'{where}: an element that was not addressed changed its text ({texts[id(it)]!r} -> {node_text(it)!r})'))
             return
-    if k in ('pop', 'delitem', 'delslice', 'clear'):
+    if k == 'vread' and op.get('plain') and result is not None:
+        v0 = _decode(op['values'][0], op.get('vtype'))
+        vals_ref = [vref[4].get(id(ref[j])) for j in pos]
+        exp = [sum(1 for x in vals_ref if x == v0), any(x == v0 for x in vals_ref),
+               next((i for i, x in enumerate(vals_ref) if x == v0), None)]
+        if list(result) != exp:
+            findings.append((SIG_VIEW, f'{where}: count / contains / index of {v0!r} are {list(result)}, the list says {exp}'))
+    if k in ('pop', 'delitem', 'delslice', 'clear', 'remove', 'discard'):
         gone = [refids[j] for j in targets]
         if any(g in set(curids) for g in gone):
             findings.append((SIG_VIEW, f'{where}: the addressed element is still in the list'))
@@ -683,7 +712,7 @@ def _view_monitor(findings, op, parent, name, vref):
             findings.append((SIG_VIEW, f'{where}: {len(ref) - len(cur)} elements disappeared, {len(targets)} were addressed'))
     if k in ('setitem', 'setslice') and len(cur) != len(ref):
         findings.append((SIG_VIEW, f'{where}: the list changed its length'))
-    if k in ('insert', 'append', 'extend'):
+    if k in ('insert', 'append', 'extend', 'iadd'):
         new = [x for x in cur if id(x) not in set(refids)]
         if any(not isinstance(x, T) for x in new) or len(cur) - len(ref) != len(new):
             findings.append((SIG_VIEW, f'{where}: unexpected elements appeared'))
@@ -783,7 +812,7 @@ def _frame_monitor(findings, op, parent, name, raw_slot, T0, T1, texts0, pf0, pl
     # extended slices, drop_many, non-contiguous view operations - are exempt: their window spans the places)
     k = op['op']
     multi = (k == 'drop_many' or (k in ('setslice', 'delslice') and op.get('s') and op['s'][2] not in (None, 1))
-             or (op.get('kind') == 'val' and k in ('setslice', 'delslice', 'clear', 'discard', 'extend')))
+             or (op.get('kind') == 'val' and k in ('setslice', 'delslice', 'clear', 'discard', 'extend', 'iadd')))
     if not multi:
         stray = [t for t in W1 if id(t) in ids0 and not is_sep_text(t.raw_text) and id(t) not in new_tokens]
         if stray:
@@ -892,8 +921,22 @@ def gen_view_step(rng, root, path, raw):
             return {**base, 'plain': True, 'op': k, 'key': key, 'values': ['v'] if k == 'map_set' else []}
         if view in NODE_VIEWS or view == 'meta':
             T = w._raw_type
-            k = rng.choice(['setitem', 'setslice', 'pop', 'delitem', 'delslice', 'insert', 'append', 'extend', 'clear'])
+            k = rng.choice(['setitem', 'setslice', 'pop', 'delitem', 'delslice', 'delslice', 'insert', 'append', 'extend',
+                            'clear', 'iadd'])
             bad = rng.random() < 0.2
+            if k == 'iadd':
+                ds = edge_batch(rng, root, parent, raw, T) if rng.random() < 0.4 else []
+                if not ds:
+                    ds = []
+                    for j in range(rng.choice([0, 1, 2])):
+                        d = typed_donor(rng, root, parent, raw, T, bad and rng.random() < 0.6)
+                        if d is None:
+                            return None
+                        ds.append(d)
+                return {**base, 'op': k, 'donors': ds}
+            if k == 'delslice' and n >= 2 and rng.random() < 0.6:
+                a = rng.randint(0, n - 2)
+                return {**base, 'op': k, 's': [a, rng.randint(a + 2, n), rng.choice([None, 1])], 'donors': []}
             if k in ('setslice', 'extend') and rng.random() < 0.35:
                 ds = edge_batch(rng, root, parent, raw, T)
                 if ds is not None:
@@ -945,12 +988,23 @@ def gen_view_step(rng, root, path, raw):
                 return {**base, 'op': k, 's': rand_slice(rng, n), 'donors': []}
             return {**base, 'op': k, 'donors': []}
         vals = PLAIN_VALUES[view]
-        k = rng.choice(['append', 'insert', 'pop', 'delitem', 'delslice', 'setitem', 'setitem', 'setslice', 'extend',
-                        'remove', 'discard'])
+        k = rng.choice(['append', 'insert', 'pop', 'delitem', 'delslice', 'delslice', 'setitem', 'setitem', 'setslice', 'extend',
+                        'remove', 'remove', 'discard', 'vread', 'iadd'])
         base = {**base, 'plain': True, 'op': k}
-        if k in ('append', 'remove', 'discard'):
+        if k in ('append', 'remove', 'discard', 'vread'):
             existing = [x for x in list(w) if isinstance(x, (str, bool))]
-            return {**base, 'values': [rng.choice(vals + existing)]}
+            # values that also occur as the OTHER kind on the same raw list (a link and a tag of the same name)
+            other = []
+            for ov in vs:
+                if ov != view and ov in PLAIN_VALUES:
+                    other += [x for x in list(getattr(parent, ov)) if isinstance(x, str)]
+            pick = rng.choice(other) if other and rng.random() < 0.45 else rng.choice(vals + existing)
+            return {**base, 'values': [pick]}
+        if k == 'iadd':
+            return {**base, 'values': [rng.choice(vals) for _ in range(rng.randint(0, 2))]}
+        if k == 'delslice' and n >= 2 and rng.random() < 0.6:
+            a = rng.randint(0, n - 2)
+            return {**base, 's': [a, rng.randint(a + 2, n), rng.choice([None, 1])], 'values': []}
         if k in ('insert', 'setitem'):
             return {**base, 'i': rand_index(rng, n), 'values': [rng.choice(vals)]}
         if k in ('pop', 'delitem'):
@@ -971,8 +1025,23 @@ def gen_view_step(rng, root, path, raw):
     n = len(w)
     base = {'parent': path, 'attr': raw, 'kind': 'rep'}
     k = rng.choice(['setitem', 'setslice', 'setslice', 'delitem', 'delslice', 'insert', 'append', 'extend', 'pop',
-                    'revslice', 'revslice', 'revslice'])
+                    'revslice', 'revslice', 'revslice', 'iadd', 'mix'])
     bad = rng.random() < 0.15
+    if k == 'mix':
+        # put an element of another kind between the view's elements (a standalone comment, a link among tags)
+        if any(type(x).__name__ == 'BlockComment' for x in root.raw_directives_with_comments) and \
+                raw in ('raw_postings_with_comments', 'raw_meta_with_comments', 'raw_directives_with_comments') and n >= 1:
+            j = next(i for i, x in enumerate(root.raw_directives_with_comments) if type(x).__name__ == 'BlockComment')
+            return {**base, 'op': 'insert', 'i': rng.randint(1, n), 'donors': [{'k': 'copy_doc', 'path': [['raw_directives_with_comments', j]]}]}
+        k = 'insert'
+    if k == 'iadd':
+        ds = []
+        for j in range(rng.choice([0, 1, 2])):
+            d = gen_donor(rng, root, parent, raw, 'rep', bad and rng.random() < 0.5)
+            if d is None:
+                return None
+            ds.append(d)
+        return {**base, 'op': 'iadd', 'donors': ds}
     if k == 'revslice':
         # xs[a:b] = [v, ...] with b < a (range(n)[a:b] is empty: a pure insertion at a), early in the list
         if n < 2:
@@ -1418,6 +1487,9 @@ CMT = ('2000-01-01 * "c"\n    ; ic1\n    kk: 1\n    ; ic2\n    jj: 2\n    ; ic3\
 RICH = ('2000-01-01 * "p" "n" #t1 ^l1 #t2 ^l2 #t3\n    k1: 1\n    k2: "v"\n    k3: TRUE\n    Assets:A  1 USD\n'
         '    Assets:B  2 USD\n    Assets:C  -3 USD\n2000-01-02 open Assets:A  USD, EUR, GBP, CAD\n'
         '2000-01-03 custom "budget" "a" 1 TRUE Assets:A\n')
+RICH2 = ('; head\n\n2000-01-01 * "p" "n" ^trip #food #trip ^x #y\n    k1: 1\n    k2: "v"\n    k3: TRUE\n    Assets:A  1 USD\n'
+         '    Assets:B  2 USD\n    Assets:C  -3 USD\n\n; float1\n\n2000-01-02 open Assets:A  USD, EUR\n\n; float2\n\n'
+         '2000-01-03 close Assets:A\n2000-01-04 custom "b" "a" 1 TRUE "a"\n')
 _OPEN2 = '2000-01-01 open Assets:Foo  AAA, BBB\n2000-01-02 open Assets:Bar  CCC\n'
 _CUR = lambda d, i: [['raw_directives_with_comments', d], ['raw_currencies', i]]
 _RC = {'parent': [['raw_directives_with_comments', 0]], 'attr': 'raw_currencies', 'kind': 'rep'}
@@ -1451,6 +1523,34 @@ CORPUS += [
     (RICH, [_TOUCH('raw_postings_with_comments', ['raw_postings']), _REV('raw_postings_with_comments', 2, 1, 0),
             {'parent': _TX, 'attr': 'raw_postings', 'kind': 'val', 'raw': 'raw_postings_with_comments', 'view': True,
              'op': 'pop', 'i': 2, 'donors': []}]),
+]
+# views over MIXED raw lists (other-kind elements / standalone comments between the addressed elements): slice deletes
+# and assignments, remove / discard / index / count / in with a value that also occurs as the other kind
+_T2 = [['raw_directives_with_comments', 1]]
+_V2 = lambda P, view, raw, **kw: {'parent': P, 'attr': view, 'kind': 'val', 'raw': raw, 'view': True, **kw}
+_CM = lambda P, raw, i: {'parent': P, 'attr': raw, 'kind': 'rep', 'op': 'insert', 'i': i,
+                         'donors': [{'k': 'copy_doc', 'path': [['raw_directives_with_comments', 0]]}]}
+_TCH = lambda P, raw, views: {'parent': P, 'attr': raw, 'kind': 'val', 'op': 'touch', 'raw': raw, 'views': views}
+CORPUS += [
+    (RICH2, [_TCH(_T2, 'raw_tags_links', ['tags', 'links']),
+             _V2(_T2, 'tags', 'raw_tags_links', plain=True, op='delslice', s=[1, 3, None], values=[])]),
+    (RICH2, [_V2(_T2, 'links', 'raw_tags_links', plain=True, op='delslice', s=[0, 2, 1], values=[])]),
+    (RICH2, [_V2(_T2, 'tags', 'raw_tags_links', plain=True, op='remove', values=['trip'])]),
+    (RICH2, [_V2(_T2, 'tags', 'raw_tags_links', plain=True, op='vread', values=['x']),
+             _V2(_T2, 'links', 'raw_tags_links', plain=True, op='vread', values=['trip']),
+             _V2(_T2, 'tags', 'raw_tags_links', plain=True, op='discard', values=['x']),
+             _V2(_T2, 'links', 'raw_tags_links', plain=True, op='discard', values=['trip'])]),
+    (RICH2, [_V2([], 'raw_directives', 'raw_directives_with_comments', op='delslice', s=[0, 2, None], donors=[])]),
+    (RICH2, [_V2([], 'directives', 'raw_directives_with_comments', op='delslice', s=[1, 3, 1], donors=[])]),
+    (RICH2, [_CM(_T2, 'raw_postings_with_comments', 1), _TCH(_T2, 'raw_postings_with_comments', ['raw_postings']),
+             _V2(_T2, 'raw_postings', 'raw_postings_with_comments', op='delslice', s=[0, 2, None], donors=[])]),
+    (RICH2, [_CM(_T2, 'raw_meta_with_comments', 1),
+             _V2(_T2, 'raw_meta', 'raw_meta_with_comments', op='delslice', s=[0, 2, None], donors=[])]),
+    (RICH2, [_CM(_T2, 'raw_meta_with_comments', 2),
+             _V2(_T2, 'meta', 'raw_meta_with_comments', op='delslice', s=[1, 3, None], donors=[])]),
+    (RICH2, [_V2(_T2, 'tags', 'raw_tags_links', plain=True, op='iadd', values=['n1', 'n2']),
+             {'parent': _T2, 'attr': 'raw_tags_links', 'kind': 'rep', 'op': 'iadd',
+              'donors': [{'k': 'copy_doc', 'path': _T2 + [['raw_tags_links', 0]]}, {'k': 'attached_doc', 'path': _T2 + [['raw_tags_links', 1]]}]}]),
 ]
 # illegal cost combinations: refused with the braces untouched
 _CS = [['raw_directives_with_comments', 0], ['raw_postings_with_comments', 0], ['raw_cost']]
@@ -1501,8 +1601,8 @@ def run_slots(ctx: common.Ctx, props, n_docs: int, n_ops: int):
         set_lf(lf)
         mode = rng.choice(['general', 'general', 'general', 'general', 'views', 'views', 'views', 'cost', 'cost', 'cmt'])
         text = cost_ledger(rng) if mode == 'cost' else gen_docs.ledger(rng, n_dir=rng.choice([1, 2, 3, 4, 6]))
-        if mode == 'views' and rng.random() < 0.7:
-            text = RICH + text
+        if mode == 'views' and rng.random() < 0.8:
+            text = (RICH2 if rng.random() < 0.5 else RICH) + text
         if mode == 'cmt':
             text = CMT + text
         root = gen_docs.parse_ok(text)
